@@ -79,6 +79,17 @@ def exprs(R, P, Q, fr, obj_attr):
     for f in UN:
         out.append((f"{f.__name__}(P)", lambda f=f: f(P)))
         out.append((f"{f.__name__}(P+Q)", lambda f=f: f(P + Q)))
+    for un in (operator.neg, operator.pos, operator.invert):
+        u = un.__name__
+        for f in UN:
+            out.append((f"{f.__name__}({u}(P))", lambda f=f, un=un: f(un(P))))
+        for f in BIN:
+            out.append((f"{f.__name__}({u}(P),Q)", lambda f=f, un=un: f(un(P), Q)))
+            out.append((f"{f.__name__}(Q,{u}(P))", lambda f=f, un=un: f(Q, un(P))))
+        out.append((f"round({u}(P),2)", lambda un=un: round(un(P), 2)))
+        out.append((f"divmod({u}(P),3)", lambda un=un: divmod(un(P), 3)))
+        out.append((f"call({u}(P))", lambda un=un: fr.g(un(P), k=un(Q))))
+        out.append((f"item[{u}(P)]", lambda un=un: P + Q._manager.containers["d"]["lst"][un(Q) * 0]))
     out += [
         ("round(P,2)", lambda: round(P, 2)), ("round(P,Q)", lambda: round(P, Q)), ("round(P,-1)", lambda: round(P, -1)),
         ("divmod(P,3)", lambda: divmod(P, 3)), ("divmod(P,Q)", lambda: divmod(P, Q)),
